@@ -3,6 +3,8 @@ package main
 import (
 	"encoding/json"
 	"fmt"
+	"strconv"
+	"strings"
 
 	pgs "github.com/lyft/protoc-gen-star/v2"
 )
@@ -279,6 +281,34 @@ func (c05Engine) Gen(g *Gen) {
 			}
 		}
 		emit(w, "random")
+		if i%5 == 0 { // the same graph among the well-known types of google.protobuf
+			emit(wktify(w), "random-wkt")
+		}
+	}
+	// the curated worlds (Struct / Value / ListValue among them), every message and enum asked
+	for _, w := range curatedWorlds() {
+		w.Bidi, w.FDSet = true, false
+		if len(w.Targets) == 0 {
+			w.Targets = []string{w.Files[0].Name}
+		}
+		if !g.Mine() {
+			g.Emit(nil)
+			continue
+		}
+		r := buildAST(w)
+		if r.failed || r.b.valid() != nil || len(allEntities(r)) > 400 {
+			continue
+		}
+		w.Queries = []queryJ{}
+		for _, en := range allEntities(r) {
+			switch en.kind {
+			case "msg":
+				w.Queries = append(w.Queries, queryJ{en.ref, 0}, queryJ{en.ref, 1})
+			case "enum":
+				w.Queries = append(w.Queries, queryJ{en.ref, 2})
+			}
+		}
+		emit(w, "curated")
 	}
 	// the general world generator in bidirectional mode: queries over every message and enum
 	m := 150
@@ -315,6 +345,54 @@ func (c05Engine) Gen(g *Gen) {
 		w.Queries = cands
 		emit(w, "general-world")
 	}
+}
+
+// wktify moves a graph world into package google.protobuf and names its first nodes after
+// well-known types (a message's place in the dependency graph has nothing to do with its name).
+func wktify(w wWorld) wWorld {
+	names := []string{"Struct", "Value", "ListValue", "Any", "Timestamp", "Duration", "Empty", "FieldMask", "DoubleValue", "StringValue", "BoolValue", "BytesValue"}
+	rename := func(seg string) string {
+		if strings.HasPrefix(seg, "N") {
+			if k, err := strconv.Atoi(seg[1:]); err == nil && k < len(names) {
+				return names[k]
+			}
+		}
+		return seg
+	}
+	fixT := func(tn string) string {
+		if tn == "" {
+			return tn
+		}
+		parts := strings.Split(tn, ".")
+		for i := range parts {
+			if i == 1 && parts[i] == "g" {
+				parts[i] = "google.protobuf"
+			} else {
+				parts[i] = rename(parts[i])
+			}
+		}
+		return strings.Join(parts, ".")
+	}
+	var out wWorld
+	b, _ := json.Marshal(w)
+	_ = json.Unmarshal(b, &out)
+	var fix func(ms []wMsg)
+	fix = func(ms []wMsg) {
+		for i := range ms {
+			ms[i].Head.Name = rename(ms[i].Head.Name)
+			for k := range ms[i].Head.Fields {
+				ms[i].Head.Fields[k].TypeName = fixT(ms[i].Head.Fields[k].TypeName)
+			}
+			fix(ms[i].Nested)
+		}
+	}
+	for fi := range out.Files {
+		if out.Files[fi].Pkg == "g" {
+			out.Files[fi].Pkg = "google.protobuf"
+		}
+		fix(out.Files[fi].Msgs)
+	}
+	return out
 }
 
 func init() { register("c05", c05Engine{}) }
